@@ -279,6 +279,10 @@ pub enum BOp {
     /// it must be aligned, inside arena memory and keep its bytes (the value is leaked and
     /// re-verified after every later step)
     OverAligned { log2: u8, seed: u32 },
+    /// boxes of f64 (and boxed slices of f64) compared with every operator, against another box
+    /// or against themselves: a value that is not equal to itself (NaN) must not become equal
+    /// because both operands are the same box. a, b index [NaN, 0.0, -0.0, 1.5, inf, -NaN]
+    FloatCmp { a: u8, b: u8, same: bool, slice: bool },
 }
 
 #[derive(Clone, Debug, PartialEq, Serialize, Deserialize)]
